@@ -2,6 +2,7 @@ mod core;
 mod exact;
 mod lm;
 mod props;
+mod refsem;
 mod solve;
 mod textref;
 
@@ -63,6 +64,7 @@ fn main() {
     match id.as_str() {
         "C04" | "C05" => props::c04_c05::run(&id, run),
         "C09" => props::c09::run(run),
+        "C10" => props::c10::run(run),
         "C11" => props::c11::run(run),
         "C12" => props::c12::run(run),
         "C13" => props::c13::run(run),
